@@ -312,6 +312,10 @@ def feature_functions(full: bool):
     add('enum-return', 'if a > 0:\n\treturn Col.B\nreturn Col.R', ret='Col')
     add('enum-dict-key', "d = {Col.R: 1, Col.G: a}\nreturn d[Col.G]")
     add('enum-str-value', 'return Names.A.value', ret='str')
+    # member values written as constant expressions (folded by the transpiler when .value is read)
+    add('enum-const-chain-sub', 'return Calc.Mid.value + a', needs='calc')
+    add('enum-const-chain-shift', 'return Calc.Sh.value + Calc.Mix.value + a', needs='calc')
+    add('enum-const-chain-div', 'return Calc.Mod.value * 100 + Calc.Par.value + a', needs='calc')
     add('enum-name', 'return Col.G.name', ret='str')
     # list literals / methods / indexing / slices
     add('list-index', 'xs = [a, 2, 3]\nreturn xs[0] * 100 + xs[1] * 10 + xs[2]')
@@ -498,6 +502,15 @@ class Ctr2:
 		self.n = n
 
 '''
+CALC_HELPER = '''
+class Calc(Enum):
+	Mid = 10 - 3 - 2
+	Sh = 64 >> 2 >> 1
+	Mix = 100 - 30 + 5
+	Mod = 100 % 7 % 3
+	Par = 2 * (3 + 4) - 1
+
+'''
 CALLBACK_HELPERS = '''
 def apply_at(v: int, f: Callable[[int], int]) -> int:
 	return f(v)
@@ -519,7 +532,7 @@ def measure(n: int, s: str, fn: Callable[[str, int], int]) -> int:
 	return fn(s, n)
 
 '''
-EXTRA_HELPERS = {'myerr': MYERR_HELPER, 'ctr': CTR_HELPER, 'ctr2': CTR2_HELPER, 'callbacks': CALLBACK_HELPERS}
+EXTRA_HELPERS = {'myerr': MYERR_HELPER, 'ctr': CTR_HELPER, 'ctr2': CTR2_HELPER, 'callbacks': CALLBACK_HELPERS, 'calc': CALC_HELPER}
 FEATURE_FIELDS = {'Pt': ['x', 'y'], 'Ctr': ['n', 'm'], 'Ctr2': ['n'], 'Base': ['v'], 'Derived': ['v', 'extra']}
 
 
